@@ -384,7 +384,7 @@ PROPS['C09'] = dict(
 RULE_ADDENDA = {
     'C01': "Also: slowSave (a Save parked inside the Persistence while the read routine and a publisher of the other level store); "
            "1 in 4 histories start from an adopted session whose pending identifiers stand 1-3 before the 14-bit wrap; every "
-           "history draws pipe-like or socket-like connections. writerStuckThenReadFails (a publisher parked inside Write while only the inbound direction fails: the read routine must give the connection up); emptyPayloadCut (a fault right behind a packet without payload). Behind the recording Persistence double sits, per case, its own map (5 in 8), the library's in-memory map (2 in 8) or mqtt.FileSystem on a scratch directory (1 in 8). One case in five runs on a session made the way VolatileSession makes it (the library's map, no checksum layer). brokerSend (inbound traffic of all levels shares the read routine's buffers). CleanSession is requested in 1 of 3 histories.",
+           "history draws pipe-like or socket-like connections. writerStuckThenReadFails (a publisher parked inside Write while only the inbound direction fails: the read routine must give the connection up); emptyPayloadCut (a fault right behind a packet without payload). Behind the recording Persistence double sits, per case, its own map (5 in 8), the library's in-memory map (2 in 8) or mqtt.FileSystem on a scratch directory (1 in 8). One case in five runs on a session made the way VolatileSession makes it (the library's map, no checksum layer). brokerSend (inbound traffic of all levels shares the read routine's buffers). CleanSession is requested in 1 of 3 histories. One case in four ends over a link which is slow yet steady: from the drain on every connection's write deadline expires after progress each 19 bytes; the backlog must go out all the same.",
     'C02': "Also: the first process asks for a clean session in 1 of 3 histories (the adopting processes never do); the broker "
            "model forgets its session on a CONNECT which carries the flag. Behind the recording Persistence double sits, per case, its own map (5 in 8), the library's in-memory map (2 in 8) or mqtt.FileSystem on a scratch directory (1 in 8). TestC02FullWindow: adoption of a synthetic store with 16384, 16383 or 8192 transfers of one level pending, the oldest at identifier 0, 1, 0x1fff, 0x2000, 0x3ffe or 0x3fff, for level 2 with 0, 1, half, all but one or all at the PUBREL stage: exactly these are on the first connection, in order; a further publish gets ErrMax exactly when 16384 are pending.",
     'C03': "Also: the first process asks for a clean session in 1 of 3 histories (the adopting processes never do); the broker "
@@ -407,7 +407,7 @@ RULE_ADDENDA = {
     'C09': "Also: the over-the-limit payload class is drawn in 1 of 8 quick-tier cases. The over-the-limit string class also comes as 21,846 three-byte characters (over 65,535 bytes, under 65,535 characters).",
     'C10': "Also: reader states skipping-dup-big (discarding the payload of a retransmitted exactly-once message larger than the "
            "read buffer, tail outstanding) and holding-big-tail-outstanding; failure 'silence' (nothing but PauseTimeout); in state handshake the broker may stay silent for good. Extra "
-           "invariant: once ReadSlices reported an error while reading from a connection, no later ReadSlices reads from it. Reader state connack-arrives-under-slow-save (a persisted publish is inside a parked Persistence.Save when the CONNACK is released). mid-packet-stall prefixes also end inside the remaining-length bytes. Behind the recording Persistence double sits, per case, its own map (5 in 8), the library's in-memory map (2 in 8) or mqtt.FileSystem on a scratch directory (1 in 8). One case in five runs on a session made the way VolatileSession makes it (the library's map, no checksum layer). Failed connects include Dialer errors which wrap context.Canceled / context.DeadlineExceeded. Failure read-fails-close-is-slow: the peer half-closes, the read routine's Close of the connection is held up, a writer which held the lock completes and a new Subscribe goes out meanwhile: it must be released by that loss too.",
+           "invariant: once ReadSlices reported an error while reading from a connection, no later ReadSlices reads from it. Reader state connack-arrives-under-slow-save (a persisted publish is inside a parked Persistence.Save when the CONNACK is released). mid-packet-stall prefixes also end inside the remaining-length bytes. Behind the recording Persistence double sits, per case, its own map (5 in 8), the library's in-memory map (2 in 8) or mqtt.FileSystem on a scratch directory (1 in 8). One case in five runs on a session made the way VolatileSession makes it (the library's map, no checksum layer). Failed connects include Dialer errors which wrap context.Canceled / context.DeadlineExceeded. Failure read-fails-close-is-slow: the peer half-closes, the read routine's Close of the connection is held up, a writer which held the lock completes and a new Subscribe goes out meanwhile: it must be released by that loss too. Failed attempts include a Dialer which returns the bare or wrapped context.Canceled while the client is open: that is a failed attempt like any other (redial follows), not the end of the client.",
     'C11': "TestC11CounterLap: 3-40 (thorough up to 530) Subscribe/Unsubscribe requests stay unanswered (every 3rd or 7th "
            "abandoned, or none), then 8200 answered requests make the 13-bit identifier counter lap them; answers for the open "
            "ones follow in forward, reverse or interleaved order. Also: connectFails (connection lost; the next attempt parks in the Dialer or in the handshake; 1-3 requests are "
@@ -421,7 +421,7 @@ RULE_ADDENDA = {
            "slowSave overlaps Saves of the read routine and of both publish levels. A single-byte alteration of an inbound marker must be reported by AdoptSession too; the parked publish of slowSave may be retained, and 0-2 QoS 0 publishes compose their packets meanwhile. In 1 of 4 adoptions of the damaged store Persistence.Delete fails once (no panic, still reported, never used). Behind the recording Persistence double sits, per case, its own map (5 in 8), the library's in-memory map (2 in 8) or mqtt.FileSystem on a scratch directory (1 in 8). After the adoption of the altered store the first ReadSlices must neither panic nor fail (client-identifier record excepted: F17).",
     'C16': "Also: AtLeastOnceMax/ExactlyOnceMax from {16,16,2,3,4}; 1 in 8 adoptions with Persistence.Delete failing once "
            "(only 'no panic' is judged then); 'second life' (the adopted client fills its queues, the process stops, the next "
-           "AdoptSession without new damage must work, connect and complete). Before the second stop 0-4 PUBRECs are released; every transfer the adopted client itself accepted and had pending at its stop must be on the first connection of the next process. Behind the recording Persistence double sits, per case, its own map (5 in 8), the library's in-memory map (2 in 8) or mqtt.FileSystem on a scratch directory (1 in 8). In 1 of 4 adoptions the store is mqtt.FileSystem with 1-3 stray directory entries next to the records: an upper-case spelling of a record's name, a sub-directory named like a key, a spool leftover, foreign files, names of 4 and 6 hexadecimals.",
+           "AdoptSession without new damage must work, connect and complete). Before the second stop 0-4 PUBRECs are released; every transfer the adopted client itself accepted and had pending at its stop must be on the first connection of the next process. Behind the recording Persistence double sits, per case, its own map (5 in 8), the library's in-memory map (2 in 8) or mqtt.FileSystem on a scratch directory (1 in 8). In 1 of 4 adoptions the store is mqtt.FileSystem with 1-3 stray directory entries next to the records: an upper-case spelling of a record's name, a sub-directory named like a key, a spool leftover, foreign files, names of 4 and 6 hexadecimals. Damage kind 'hollow': a record whose bytes are well formed (sequence number plus matching checksum) yet hold no packet.",
     'C17': "Also: resendFails (connection lost; the next one resets 0-80 bytes into the retransmission; the one after is healthy). ackDeleteFails (the Delete asked for by an acknowledgement fails; reconnect). TestC17Slots/TestC11CounterLap: in 1 of 3 cases an outage first, with 1032 requests refused while down. twoForTheLastSlot (one slot left, the reconnect parked inside its retransmission, two publishes arrive: exactly one ErrMax, no blocking). Behind the recording Persistence double sits, per case, its own map (5 in 8), the library's in-memory map (2 in 8) or mqtt.FileSystem on a scratch directory (1 in 8). Slots case: optionally a lone request abandoned after submission, then its successor (must not get the identifier whose answer is still owed).",
     'C18': "Also: in a held handshake a persisted publish whose Save is still running when the CONNACK arrives. Behind the recording Persistence double sits, per case, its own map (5 in 8), the library's in-memory map (2 in 8) or mqtt.FileSystem on a scratch directory (1 in 8). An attempt whose CONNECT gets through (also with one tolerated expiry after progress) and whose CONNACK accepts at once must establish the connection. Raw CONNACK variants include odd reserved flag bytes (0x03, 0x81, 0xff) with return code 0.",
 }
